@@ -98,7 +98,10 @@ CHECKS = {
   text='The real response serialisers (String.build, QuotedString/LiteralString, AString/Mailbox + modutf7_encode, List, '
        'LIST/STATUS/ID/FLAGS/FETCH responses, BAD lines for arbitrary client lines, address lists) executed on symbolic '
        'client-chosen data up to the bound; the symbolic output is checked by an independent strict recogniser (CRLF only '
-       'at line end, literal count, quoted-string content, balanced lists); every path is decided.',
+       'at line end, literal count, quoted-string content, balanced lists); every path is decided. ENVELOPE / BODYSTRUCTURE / BODY '
+       'of a message appended on the real connection (header values and body shapes from a stated concrete vocabulary, the '
+       'combination drawn by the engine: 0-1 headers quick, Content-Type next to any other header thorough) must derive from the '
+       'RFC 3501 section 9 ABNF (recursive-descent recogniser written from the ABNF).',
   note=TRUST + 'Recogniser checks exactly the items the property lists (8-bit bytes in quoted strings are not flagged). '
        'Outside: whole-session streams, structures produced inside the email package.',
   technique='symbolic execution of the real serialisers with z3, independent grammar recogniser as oracle'),
